@@ -6,7 +6,7 @@ TECHNIQUE = "loop-progress analysis (exit-condition backward slice, state write 
 EXPLANATION = ("Over every workspace function reachable from file::Transaction::{prepare,commit}, packed::Transaction::{prepare,commit} and "
                "gix_lock::acquire::lock_with_mode: each natural loop that is not a `for` over an iterator must, on every path from its header back "
                "to it, write one of the loop-carried values its exit condition depends on (or wait on an external agent: atomics, clocks, locks); "
-               "every call-graph cycle in that closure must be a listed, reviewed one. The wall-clock bound of system calls is not decided.")
+               "every call-graph cycle in that closure must be a listed, reviewed one. In gix_fs::snapshot no lock guard is alive when the same lock is requested again (guard liveness from MIR drops/moves). The wall-clock bound of system calls is not decided.")
 ENTRIES = [r"^gix_ref::store_impl::file::transaction::prepare::<impl gix_ref::store_impl::file::Transaction<'_, '_>>::prepare$",
            r"^gix_ref::store_impl::file::transaction::commit::<impl gix_ref::store_impl::file::Transaction<'_, '_>>::commit$",
            r"^gix_ref::store_impl::packed::transaction::<impl gix_ref::store_impl::packed::Transaction>::prepare$",
